@@ -101,6 +101,23 @@ Definition lscan (a : lstate) (start_key : bytes) (include_start : bool) (limit 
   lscan_keys a (filter (in_range start_key include_start) (ls_keys a))
              (scan_read_ts version) (N.to_nat (scan_limit limit)).
 
+(** The scan over the keys that already have a record.  This is what the code
+    implements: [handleScan] meets a key only through its write records, so
+    the lock of a first-ever prewrite is invisible to it (known finding
+    C17-F1).  [scan_sees_all_locks] says that no such lock is in the way, and
+    then both scans coincide. *)
+Definition has_records (a : lstate) (k : bytes) : bool :=
+  negb (match ks_recs (ls_at a k) with [] => true | _ => false end).
+Definition lscan_blind (a : lstate) (start_key : bytes) (include_start : bool) (limit version : N)
+  : list (bytes * bytes) * option key_error :=
+  lscan_keys a (filter (fun k => in_range start_key include_start k && has_records a k) (ls_keys a))
+             (scan_read_ts version) (N.to_nat (scan_limit limit)).
+Definition blocked_at (a : lstate) (k : bytes) (t : N) : bool :=
+  match ks_lock (ls_at a k) with Some l => l_ts (ll_rec l) <=? t | None => false end.
+Definition scan_sees_all_locks (a : lstate) (start_key : bytes) (include_start : bool) (version : N) : bool :=
+  forallb (fun k => negb (in_range start_key include_start k) || has_records a k ||
+                    negb (blocked_at a k (scan_read_ts version))) (ls_keys a).
+
 (** * The protocol *)
 
 Definition find_start (rs : list lrec) (start : N) : option lrec :=
